@@ -83,6 +83,11 @@ def table_values(kind, n, nonlinear, k):
     return v + 10 * k
 
 
+def sky_frame(case, k):
+    """ICRS, or a frame with a non-default attribute (FK5 at equinox J1975): the frame is part of the coordinate"""
+    return {"frame": "icrs"} if (case["wseed"] + k) % 2 == 0 else {"frame": "fk5", "equinox": "J1975"}
+
+
 def build(case):
     from ndcube import NDCube
     rng = random.Random(case["wseed"])
@@ -96,7 +101,7 @@ def build(case):
             n = shape[ec["axis"][0]]
             v = table_values(ec["kind"], n, ec["nonlinear"], k)
             cube.extra_coords.add((f"lon{k}", f"lat{k}"), tuple(ec["axis"]),
-                                  SkyCoord(v * u.deg / 10, (v / 2 - 5 + np.arange(n) % 2) * u.deg / 10, frame="icrs"), mesh=True)
+                                  SkyCoord(v * u.deg / 10, (v / 2 - 5 + np.arange(n) % 2) * u.deg / 10, **sky_frame(case, k)), mesh=True)
             tabs.append(v)
             continue
         n = shape[ec["axis"]]
@@ -107,7 +112,7 @@ def build(case):
             # (a Time table in any of the usual scales: the instants, not the clock readings, must be kept)
             cube.extra_coords.add(f"t{k}", ec["axis"], Time("2020-01-01T00:00:00", scale=["utc", "tai", "tt"][case["wseed"] % 3]) + v * u.min)
         else:
-            cube.extra_coords.add((f"lon{k}", f"lat{k}"), ec["axis"], SkyCoord(v * u.deg / 10, (v / 2 - 5) * u.deg / 10, frame="icrs"), mesh=False)
+            cube.extra_coords.add((f"lon{k}", f"lat{k}"), ec["axis"], SkyCoord(v * u.deg / 10, (v / 2 - 5) * u.deg / 10, **sky_frame(case, k)), mesh=False)
         tabs.append(v)
     return cube, tabs
 
@@ -207,6 +212,11 @@ def run(case):
                 return dict(zip(w.world_axis_names, map(str, w.world_axis_physical_types)))
             if [x[1] for x in st] != [x[1] for x in ot]:
                 fails.append(f"extra coords names changed by rebin: {[x[1] for x in st]} -> {[x[1] for x in ot]}")
+            elif not all(isinstance(a[1].table, SkyCoord) == isinstance(b[1].table, SkyCoord) and
+                         (not isinstance(a[1].table, SkyCoord) or a[1].table.frame.is_equivalent_frame(b[1].table.frame))
+                         for a, b in zip(sorted(src.extra_coords._lookup_tables, key=lambda t: list(t[1].names)),
+                                         sorted(out.extra_coords._lookup_tables, key=lambda t: list(t[1].names)))):
+                fails.append("a SkyCoord extra coord is no longer in the frame (with its attributes) it was given in")
             elif _ptypes(src) != _ptypes(out):
                 fails.append(f"extra coords physical types changed by rebin: {_ptypes(src)} -> {_ptypes(out)}")
             else:
